@@ -82,13 +82,57 @@ func vC17ErrCode(err error) int {
 type vC17Cons struct {
 	pat   []int
 	calls int
+	tb    *vC17Tables // nil: NewJsonPlusReader; else NewCommentReader with these tables
+}
+
+// the four arguments of NewCommentReader
+type vC17Tables struct {
+	starts, ends [][]byte
+	isc, req     []bool
+}
+
+func (t *vC17Tables) sx() vSx {
+	a, b, c, d := []vSx{}, []vSx{}, []vSx{}, []vSx{}
+	for _, x := range t.starts {
+		a = append(a, vB(x))
+	}
+	for _, x := range t.ends {
+		b = append(b, vB(x))
+	}
+	for _, x := range t.isc {
+		c = append(c, vBool(x))
+	}
+	for _, x := range t.req {
+		d = append(d, vBool(x))
+	}
+	return vL(vLs(a), vLs(b), vLs(c), vLs(d))
+}
+
+func vC17TablesOf(s vSx) (*vC17Tables, bool) {
+	if !s.isList() || len(s.l) != 4 {
+		return nil, false
+	}
+	t := &vC17Tables{}
+	for _, x := range s.l[0].l {
+		t.starts = append(t.starts, x.b)
+	}
+	for _, x := range s.l[1].l {
+		t.ends = append(t.ends, x.b)
+	}
+	for _, x := range s.l[2].l {
+		t.isc = append(t.isc, x.int() != 0)
+	}
+	for _, x := range s.l[3].l {
+		t.req = append(t.req, x.int() != 0)
+	}
+	return t, true
 }
 
 // rd = n: buffers of n bytes, as many calls as it takes (at most one per input byte plus two);
 // rd = (calls n1 n2 ...): the sizes n1 n2 ... cyclically, calls calls
 func vC17ConsOf(rd vSx, inputLen int) (vC17Cons, bool) {
 	if rd.isInt() {
-		return vC17Cons{[]int{rd.int()}, inputLen + 2}, true
+		return vC17Cons{[]int{rd.int()}, inputLen + 2, nil}, true
 	}
 	if !rd.isList() || len(rd.l) < 2 {
 		return vC17Cons{}, false
@@ -113,7 +157,12 @@ func vC17Drain(segs [][]byte, fin int, cons vC17Cons, dt bool) (out []byte, code
 	}()
 	cp := make([][]byte, len(segs))
 	copy(cp, segs)
-	r := NewJsonPlusReader(&vC17Src{segs: cp, fin: fin, dt: dt})
+	var r io.Reader
+	if cons.tb != nil {
+		r = NewCommentReader(&vC17Src{segs: cp, fin: fin, dt: dt}, cons.tb.starts, cons.tb.ends, cons.tb.isc, cons.tb.req)
+	} else {
+		r = NewJsonPlusReader(&vC17Src{segs: cp, fin: fin, dt: dt})
+	}
 	for i := 0; i < cons.calls; i++ {
 		p := make([]byte, cons.pat[i%len(cons.pat)])
 		n, err := r.Read(p)
@@ -554,6 +603,41 @@ func vC17GenRaw(r *vRng) vSx {
 	return vL(vI(0), vLs(segs), vI(vC17Fin(r)), vC17Rd(r), vI(r.pickInt(0, 0, 1)))
 }
 
+// NewCommentReader with other tables: the SRS-config example of the package (# comments), SQL/XML
+// style markers, multi-byte pass-through regions, and the JSON+ tables themselves
+var vC17TableSets = []struct {
+	tb       vC17Tables
+	alphabet []string
+}{
+	{vC17Tables{[][]byte{[]byte("'"), []byte("\""), []byte("#")}, [][]byte{[]byte("'"), []byte("\""), []byte("\n")}, []bool{false, false, true}, []bool{true, true, false}},
+		[]string{"#", "#", "'", "\"", "\n", "\\", " ", "a", "vhost", "{", "}", ";", "\\\""}},
+	{vC17Tables{[][]byte{[]byte("--"), []byte("<!--"), []byte("\"")}, [][]byte{[]byte("\n"), []byte("-->"), []byte("\"")}, []bool{true, true, false}, []bool{false, true, true}},
+		[]string{"--", "-", "<!--", "<!-", "-->", "->", "\"", "\n", "\\", " ", "x", "<", ">", "!"}},
+	{vC17Tables{[][]byte{[]byte("{{"), []byte("%")}, [][]byte{[]byte("}}"), []byte("%")}, []bool{false, true}, []bool{false, true}},
+		[]string{"{{", "{", "}}", "}", "%", "%", "\\", "\\}", " ", "q", "\n"}},
+	{vC17Tables{[][]byte{[]byte("'"), []byte("\""), []byte("//"), []byte("/*")}, [][]byte{[]byte("'"), []byte("\""), []byte("\n"), []byte("*/")}, []bool{false, false, true, true}, []bool{true, true, false, true}},
+		[]string{"'", "\"", "//", "/*", "*/", "/", "*", "\n", "\\", " ", "1", "[", "]"}},
+}
+
+func vC17GenTables(r *vRng) vSx {
+	set := vC17TableSets[r.intn(len(vC17TableSets))]
+	n := r.pickInt(0, 1, 2, 3, 5, 8, 13, 30, 80)
+	var data []byte
+	for i := 0; i < n; i++ {
+		data = append(data, r.pickStr(set.alphabet...)...)
+	}
+	var segs []vSx
+	for i := 0; i < len(data); {
+		k := r.pickInt(0, 1, 1, 2, 3, 7, 50)
+		if i+k > len(data) {
+			k = len(data) - i
+		}
+		segs = append(segs, vB(data[i:i+k]))
+		i += k
+	}
+	return vL(vI(2), set.tb.sx(), vLs(segs), vI(vC17Fin(r)), vC17Rd(r), vI(r.pickInt(0, 0, 1)))
+}
+
 // ---- one case ----
 func vC17Run(k *vKit, c vSx) {
 	bad := vL(vZ(-1))
@@ -564,6 +648,7 @@ func vC17Run(k *vKit, c vSx) {
 	var segs [][]byte
 	var fin int
 	var rd vSx
+	var tables *vC17Tables
 	dt := false
 	var dec, plain []byte
 	var items []vC17Item
@@ -576,6 +661,21 @@ func vC17Run(k *vKit, c vSx) {
 			dec = append(dec, s.b...)
 		}
 		fin, rd, dt = c.l[2].int(), c.l[3], c.l[4].int() != 0
+	case 2:
+		if len(c.l) != 6 {
+			k.record(c, bad, false)
+			return
+		}
+		var okt bool
+		if tables, okt = vC17TablesOf(c.l[1]); !okt {
+			k.record(c, bad, false)
+			return
+		}
+		for _, s := range c.l[2].l {
+			segs = append(segs, s.b)
+			dec = append(dec, s.b...)
+		}
+		fin, rd, dt = c.l[3].int(), c.l[4], c.l[5].int() != 0
 	case 1:
 		if len(c.l) != 7 {
 			k.record(c, bad, false)
@@ -613,6 +713,7 @@ func vC17Run(k *vKit, c vSx) {
 		k.record(c, bad, false)
 		return
 	}
+	cons.tb = tables
 	out, code, panicked := vC17Drain(segs, fin, cons, dt)
 	var obs vSx
 	switch {
@@ -678,7 +779,7 @@ func vC17Run(k *vKit, c vSx) {
 	if code == -1 {
 		// the consumer stopped first: what it has is a prefix of what one big read delivers
 		k.count("consumer-stopped-early", "1")
-		out1, _, p1 := vC17Drain([][]byte{dec}, 0, vC17Cons{[]int{1 << 20}, len(dec) + 2}, false)
+		out1, _, p1 := vC17Drain([][]byte{dec}, 0, vC17Cons{[]int{1 << 20}, len(dec) + 2, tables}, false)
 		if p1 || !bytes.HasPrefix(out1, out) {
 			fail("consumer-prefix", fmt.Sprintf("a consumer that stopped early received %s, the whole output is %s", show(out), show(out1)))
 		}
@@ -686,7 +787,7 @@ func vC17Run(k *vKit, c vSx) {
 	}
 	// segmentation independence, directly: one read of everything gives the same result
 	if fin == 0 && code != 3 {
-		out1, code1, p1 := vC17Drain([][]byte{dec}, 0, vC17Cons{[]int{1 << 20}, len(dec) + 2}, false)
+		out1, code1, p1 := vC17Drain([][]byte{dec}, 0, vC17Cons{[]int{1 << 20}, len(dec) + 2, tables}, false)
 		if p1 || code1 != code || !bytes.Equal(out1, out) {
 			fail("segmentation", fmt.Sprintf("segmented: code %d out %s; unsegmented: code %d out %s", code, show(out), code1, show(out1)))
 		}
@@ -694,7 +795,7 @@ func vC17Run(k *vKit, c vSx) {
 	if fin != 0 && code != fin && code != 3 {
 		fail("read-error-surfaces", fmt.Sprintf("injected read error %d, reader ended with class %d", fin, code))
 	}
-	if fin == 0 && !structured && !bytes.ContainsAny(dec, "\"'") && !bytes.Contains(dec, []byte("//")) && !bytes.Contains(dec, []byte("/*")) && code != 3 {
+	if fin == 0 && !structured && tables == nil && !bytes.ContainsAny(dec, "\"'") && !bytes.Contains(dec, []byte("//")) && !bytes.Contains(dec, []byte("/*")) && code != 3 {
 		if code != 0 || !bytes.Equal(out, dec) {
 			fail("identity", fmt.Sprintf("marker-free input %s came out as %s (class %d)", show(dec), show(out), code))
 		}
@@ -745,6 +846,8 @@ func TestVerifC17(t *testing.T) {
 		switch {
 		case i%5 == 4:
 			run(vC17GenRaw(k.rnd))
+		case i%10 == 3:
+			run(vC17GenTables(k.rnd))
 		default:
 			run(vC17GenDoc(k.rnd))
 		}
